@@ -40,7 +40,7 @@ def run(ck):
     ck.rule("C01.R13", "the no_std registry re-evaluates what the std one does (interests and max level from the same calls; as C04.R7)", floor=4)
     ck.rule("C01.R6", "every new collector is registered (register_dispatch)", floor=6)
     ck.rule("C01.R7", "who may write MAX_LEVEL / callsite interest", floor=4)
-    ck.rule("C01.R8", "STATIC_MAX_LEVEL table under each max_level feature", floor=24)
+    ck.rule("C01.R8", "STATIC_MAX_LEVEL table under each max_level feature, each release_max_level feature and pairs of both, with and without debug assertions", floor=30)
     ck.rule("C01.R11", "collector wrappers forward the interest / enabled / hint questions to the wrapped collector (as C09.R1/R2)", floor=20)
     ck.rule("C01.R10", "interest rebuilds, collector registration and first-hit registration are serialised by the registry lock (as C04.R1)", floor=3)
     ck.rule("C01.R9", "the callsite registry never loses a registered callsite (lock-free push/walk, as C04.R3)", floor=5)
@@ -287,9 +287,9 @@ def r4(ck, F):
 
 
 # ------------------------------------------------------------------ R5
-def r5(ck, F):
+def r5(ck, F, rid="C01.R5"):
     rci = F.body(CS + "rebuild_callsite_interest")
-    if ck.anchor("C01.R5", "rebuild_callsite_interest", rci):
+    if ck.anchor(rid, "rebuild_callsite_interest", rci):
         ps = [p for p in PathEval(rci).run() if p.end == "return"]
         ok = len(ps) == 2
         why = "expected two paths (some dispatcher / none)"
@@ -319,9 +319,9 @@ def r5(ck, F):
                         ok, why = False, "with no live dispatcher the interest is %s, expected never()" % show(val)
                         break
         if ok:
-            ck.ok("C01.R5", "callsite interest = Interest::and-fold over all dispatchers; none -> never", fn=rci.path)
+            ck.ok(rid, "callsite interest = Interest::and-fold over all dispatchers; none -> never", fn=rci.path)
         else:
-            ck.bad("C01.R5", "callsite interest = Interest::and-fold over all dispatchers; none -> never", where(rci.raw["sp"]), why, fn=rci.path)
+            ck.bad(rid, "callsite interest = Interest::and-fold over all dispatchers; none -> never", where(rci.raw["sp"]), why, fn=rci.path)
         # the only element dropped is a dead registrar; each live one is asked register_callsite(meta of this callsite)
         # the closure handed to filter_map (in rebuild_callsite_interest itself or in a helper inlined into it)
         c0 = None
@@ -343,13 +343,13 @@ def r5(ck, F):
             ps2 = [p for p in PathEval(c00).run() if p.end == "return"] if c00 is not None else []
             ok = ok and len(ps2) == 1 and ps2[0].ret[0] == "call" and ps2[0].ret[1] == "tracing_core::dispatch::Dispatch::register_callsite"
         if ok:
-            ck.ok("C01.R5", "filter_map drops only dead registrars; live ones are asked register_callsite", fn=c0.path)
+            ck.ok(rid, "filter_map drops only dead registrars; live ones are asked register_callsite", fn=c0.path)
         else:
-            ck.bad("C01.R5", "filter_map drops only dead registrars; live ones are asked register_callsite", CS + "rebuild_callsite_interest::{closure#0}",
+            ck.bad(rid, "filter_map drops only dead registrars; live ones are asked register_callsite", CS + "rebuild_callsite_interest::{closure#0}",
                    "closure is not `registrar.upgrade().map(|d| d.register_callsite(meta))`")
     ri = F.body(CS + "rebuild_interest")
     rc = F.body(CS + "rebuild_interest::{closure#0}")
-    if ck.anchor("C01.R5", "rebuild_interest", ri) and ck.anchor("C01.R5", "rebuild_interest retain closure", rc):
+    if ck.anchor(rid, "rebuild_interest", ri) and ck.anchor(rid, "rebuild_interest retain closure", rc):
         # retain closure table
         rows = {}
         assigns = []
@@ -391,9 +391,9 @@ def r5(ck, F):
             if not ("unwrap_or(max_level_hint(" in g and "LevelFilter::TRACE)" in g and g.endswith("arg1.max_level)")):
                 ok, why = False, "the comparison is `%s`; expected gt(hint.unwrap_or(TRACE), max_level)" % g
         if ok:
-            ck.ok("C01.R5", "retain keeps exactly the live dispatchers; max_level = max(hint or TRACE)", fn=rc.path, detail={str(k): v for k, v in rows.items()})
+            ck.ok(rid, "retain keeps exactly the live dispatchers; max_level = max(hint or TRACE)", fn=rc.path, detail={str(k): v for k, v in rows.items()})
         else:
-            ck.bad("C01.R5", "retain keeps exactly the live dispatchers; max_level = max(hint or TRACE)", where(rc.raw["sp"]), why, fn=rc.path)
+            ck.bad(rid, "retain keeps exactly the live dispatchers; max_level = max(hint or TRACE)", where(rc.raw["sp"]), why, fn=rc.path)
         # accumulator starts at OFF; set_max receives it after the loops
         ps = [p for p in PathEval(ri).run() if p.end == "return"]
         ok = len(ps) == 1
@@ -415,20 +415,20 @@ def r5(ck, F):
                     d = ri.defs().get(pl["l"], [])
                     ok = any(dd[0] == "stmt" and (dd[3].get("use", {}).get("copy") or {}).get("l") == acc for dd in d) or pl["l"] == acc
         if ok:
-            ck.ok("C01.R5", "rebuild_interest: OFF-initialised max, every callsite re-evaluated, then set_max(max)", fn=ri.path)
+            ck.ok(rid, "rebuild_interest: OFF-initialised max, every callsite re-evaluated, then set_max(max)", fn=ri.path)
         else:
-            ck.bad("C01.R5", "rebuild_interest: OFF-initialised max, every callsite re-evaluated, then set_max(max)", where(ri.raw["sp"]),
+            ck.bad(rid, "rebuild_interest: OFF-initialised max, every callsite re-evaluated, then set_max(max)", where(ri.raw["sp"]),
                    "expected `max = OFF; retain(..); callsites.for_each(rebuild_callsite_interest); set_max(max)`", fn=ri.path)
         c1 = F.body(CS + "rebuild_interest::{closure#1}")
-        if ck.anchor("C01.R5", "rebuild_interest for_each closure", c1):
+        if ck.anchor(rid, "rebuild_interest for_each closure", c1):
             calls = [t for bb, t in c1.calls() if t["callee"].get("path") == CS + "rebuild_callsite_interest"]
             if len(calls) == 1:
-                ck.ok("C01.R5", "for_each re-evaluates each registered callsite", fn=c1.path)
+                ck.ok(rid, "for_each re-evaluates each registered callsite", fn=c1.path)
             else:
-                ck.bad("C01.R5", "for_each re-evaluates each registered callsite", where(c1.raw["sp"]), "closure does not call rebuild_callsite_interest once")
+                ck.bad(rid, "for_each re-evaluates each registered callsite", where(c1.raw["sp"]), "closure does not call rebuild_callsite_interest once")
     # for_each covers the list: no early exit except the end-of-list test
     fe = F.body("tracing_core::callsite::LinkedList::for_each")
-    if ck.anchor("C01.R5", "LinkedList::for_each", fe):
+    if ck.anchor(rid, "LinkedList::for_each", fe):
         sw = [(i, blk["term"]) for i, blk in enumerate(fe.blocks) if blk["term"]["k"] == "switch" and not blk.get("cleanup")]
         real = []
         for i, t in sw:
@@ -452,9 +452,9 @@ def r5(ck, F):
             src = fe.origin({"copy": o[1]["discr"]})
             ok = src[0] == "call" and src[2]["callee"].get("method") == "as_ref"
         if ok:
-            ck.ok("C01.R5", "for_each visits every node: the only exit is the null next pointer", fn=fe.path)
+            ck.ok(rid, "for_each visits every node: the only exit is the null next pointer", fn=fe.path)
         else:
-            ck.bad("C01.R5", "for_each visits every node: the only exit is the null next pointer", where(fe.raw["sp"]),
+            ck.bad(rid, "for_each visits every node: the only exit is the null next pointer", where(fe.raw["sp"]),
                    "the traversal has %d data-dependent branches (expected exactly the end-of-list test) and %d calls of f" % (len(real), len(fcalls)), fn=fe.path)
 
 
@@ -597,9 +597,31 @@ def r7(ck, F):
 
 
 # ------------------------------------------------------------------ R8
-def r8(ck):
+def r8(ck, rid="C01.R8"):
     want = {"off": "OFF", "error": "ERROR", "warn": "WARN", "info": "INFO", "debug": "DEBUG", "trace": "TRACE"}
     enc = None
+    # both families at once (Cargo unifies features across the dependency graph): without debug assertions the release_*
+    # feature decides, with them the plain one does -- whichever of the two is the more verbose
+    for rl, dl in (("trace", "info"), ("off", "trace"), ("warn", "debug")):
+        for dbg in (True, False):
+            feat = "release_max_level_%s+max_level_%s" % (rl, dl)
+            cfg = "tfeat:%s:%s" % (feat, "dbg" if dbg else "nodbg")
+            F = Facts(cfg)
+            ck.configs.append(cfg)
+            c = F.consts.get("tracing::level_filters::STATIC_MAX_LEVEL")
+            if not ck.anchor(rid, "STATIC_MAX_LEVEL", c):
+                continue
+            if enc is None:
+                D = Facts("default")
+                enc = {n: D.consts["tracing_core::metadata::LevelFilter::" + n]["val"]["int"] for n in want.values()}
+            expect = want[dl] if dbg else want[rl]
+            key = "%s (debug_assertions=%s) -> %s" % (feat, dbg, expect)
+            v = c["val"].get("int")
+            if str(v) == str(enc[expect]):
+                ck.ok(rid, key)
+            else:
+                got = [n for n, e in enc.items() if str(e) == str(v)]
+                ck.bad(rid, key, "tracing/src/level_filters.rs", "STATIC_MAX_LEVEL evaluates to %s with features %s: the feature meant for this build profile does not decide" % (got or v, feat))
     for rel in (False, True):
         for lvl, name in want.items():
             feat = ("release_" if rel else "") + "max_level_" + lvl
@@ -608,7 +630,7 @@ def r8(ck):
                 F = Facts(cfg)
                 ck.configs.append(cfg)
                 c = F.consts.get("tracing::level_filters::STATIC_MAX_LEVEL")
-                if not ck.anchor("C01.R8", "STATIC_MAX_LEVEL", c):
+                if not ck.anchor(rid, "STATIC_MAX_LEVEL", c):
                     continue
                 if enc is None:
                     # encoding of LevelFilter constants from tracing-core's evaluated consts
@@ -618,10 +640,10 @@ def r8(ck):
                 expect = name if (not rel or not dbg) else "TRACE"
                 key = "%s (debug_assertions=%s) -> %s" % (feat, dbg, expect)
                 if str(v) == str(enc[expect]):
-                    ck.ok("C01.R8", key)
+                    ck.ok(rid, key)
                 else:
                     got = [n for n, e in enc.items() if str(e) == str(v)]
-                    ck.bad("C01.R8", key, "tracing/src/level_filters.rs", "STATIC_MAX_LEVEL evaluates to %s with feature %s" % (got or v, feat))
+                    ck.bad(rid, key, "tracing/src/level_filters.rs", "STATIC_MAX_LEVEL evaluates to %s with feature %s" % (got or v, feat))
 
 
 def install_reevaluates(ck, rid="C01.R14"):
